@@ -100,10 +100,10 @@ def _ty_is(t, ty):
     return t == ty or t.endswith("::" + ty)
 
 
-def constructions(prog, crate, adt, variant=None):
+def constructions(prog, crate, adt, variant=None, fns=None):
     """aggregate constructions of adt (optionally of a given variant): list of dict(fn,b,i,rv)"""
     out = []
-    for f in prog.crate_fns(crate):
+    for f in (fns if fns is not None else prog.crate_fns(crate)):
         for b, i, s in stmts(f):
             if "a" in s and "agg" in s["rv"] and s["rv"].get("adt") == adt:
                 if variant is None or s["rv"].get("variant") == variant:
@@ -111,13 +111,13 @@ def constructions(prog, crate, adt, variant=None):
     return out
 
 
-def const_uses(prog, crate, adt, variant):
+def const_uses(prog, crate, adt, variant, fns=None):
     """uses of a field-less enum variant as a *constant operand* (MIR represents unit variants in
     operand position as constants, not aggregates)"""
     out = []
     def isk(o):
         return "k" in o and o["k"].get("adt") == adt and o["k"].get("variant") == variant
-    for f in prog.crate_fns(crate):
+    for f in (fns if fns is not None else prog.crate_fns(crate)):
         for b, i, s in stmts(f):
             if "a" in s:
                 rv = s["rv"]
@@ -132,9 +132,9 @@ def const_uses(prog, crate, adt, variant):
     return out
 
 
-def variant_uses(prog, crate, adt, variant):
+def variant_uses(prog, crate, adt, variant, fns=None):
     """every place a field-less variant value is produced: aggregate statements and constant operands"""
-    return constructions(prog, crate, adt, variant) + const_uses(prog, crate, adt, variant)
+    return constructions(prog, crate, adt, variant, fns) + const_uses(prog, crate, adt, variant, fns)
 
 
 def flows_to_calls(fn, local, _seen=None):
